@@ -3,6 +3,7 @@ package graphql
 import (
 	"context"
 	"fmt"
+	"sort"
 
 	"github.com/graphql-go/graphql/gqlerrors"
 	"github.com/graphql-go/graphql/language/parser"
@@ -152,6 +153,23 @@ func ExecuteSubscription(p ExecuteParams) chan *Result {
 		for name := range fields {
 			responseNames = append(responseNames, name)
 		}
+		// The subscription is taken out on the first root field of the
+		// document; picking "the first key" of the map made the choice - and
+		// so the event stream - differ from run to run when a subscription
+		// selects several root fields.
+		fieldStart := func(name string) int {
+			if nodes := fields[name]; len(nodes) > 0 && nodes[0] != nil && nodes[0].Loc != nil {
+				return nodes[0].Loc.Start
+			}
+			return 0
+		}
+		sort.Slice(responseNames, func(i, j int) bool {
+			si, sj := fieldStart(responseNames[i]), fieldStart(responseNames[j])
+			if si != sj {
+				return si < sj
+			}
+			return responseNames[i] < responseNames[j]
+		})
 		responseName := responseNames[0]
 		fieldNodes := fields[responseName]
 		fieldNode := fieldNodes[0]
